@@ -15,6 +15,30 @@ pub struct Holder<T> {
     pub b: u8,
 }
 
+/// all values of a map document, duplicates of a key included (a `BTreeMap` would keep only the last
+/// value of a repeated key, hiding the others from the oracle)
+pub struct MapVals<T>(pub Vec<T>);
+
+impl<'de, T: Deserialize<'de>> Deserialize<'de> for MapVals<T> {
+    fn deserialize<D: serde::Deserializer<'de>>(d: D) -> Result<Self, D::Error> {
+        struct V<T>(std::marker::PhantomData<T>);
+        impl<'de, T: Deserialize<'de>> serde::de::Visitor<'de> for V<T> {
+            type Value = MapVals<T>;
+            fn expecting(&self, f: &mut std::fmt::Formatter) -> std::fmt::Result {
+                write!(f, "a map with string keys")
+            }
+            fn visit_map<A: serde::de::MapAccess<'de>>(self, mut map: A) -> Result<Self::Value, A::Error> {
+                let mut out = vec![];
+                while let Some((_k, v)) = map.next_entry::<String, T>()? {
+                    out.push(v);
+                }
+                Ok(MapVals(out))
+            }
+        }
+        d.deserialize_map(V(std::marker::PhantomData))
+    }
+}
+
 pub fn dec<X: DeserializeOwned>(f: Fmt, b: &[u8]) -> Result<X, String> {
     match f {
         Fmt::Json => serde_json::from_slice::<X>(b).map_err(|e| e.to_string()),
@@ -38,7 +62,7 @@ pub fn de_any<T: DeserializeOwned, I>(f: Fmt, p: Pos, b: &[u8], into: fn(T) -> I
         Pos::Vec => dec::<Vec<T>>(f, b)?.into_iter().map(into).collect(),
         Pos::Opt => dec::<Option<T>>(f, b)?.into_iter().map(into).collect(),
         Pos::Field => vec![into(dec::<Holder<T>>(f, b)?.a)],
-        Pos::MapVal => dec::<BTreeMap<String, T>>(f, b)?.into_values().map(into).collect(),
+        Pos::MapVal => dec::<MapVals<T>>(f, b)?.0.into_iter().map(into).collect(),
         Pos::MapKey => return Err("use de_key".into()),
     })
 }
